@@ -1446,22 +1446,30 @@ impl Context {
                             }
                             BinaryOpcode::Compare => Ok(zero),
                             BinaryOpcode::Mod => {
+                                // `modulo` is `rem_euclid`, so its derivative
+                                // is `d_lhs - d_rhs * div_euclid(lhs, rhs)`.
+                                //
+                                // This is a symbolic `f32::div_euclid`:
+                                //   let q = (lhs / rhs).trunc();
+                                //   if lhs % rhs < 0.0 {
+                                //      if rhs > 0.0 { q - 1.0 } else { q + 1.0 }
+                                //   } else {
+                                //      q
+                                //   }
                                 let e = self.div(v_lhs, v_rhs).unwrap();
-                                let q = self.floor(e).unwrap();
-
-                                // XXX
-                                // (we don't actually have %, so hack it from
-                                // `modulo`, which is actually `rem_euclid`)
-                                // ???
-                                let m = self.modulo(q, v_rhs).unwrap();
-                                let cond = self.less_than(q, zero).unwrap();
-                                let offset = self
-                                    .if_nonzero_else(cond, v_rhs, zero)
+                                let e_neg = self.less_than(e, zero).unwrap();
+                                let e_floor = self.floor(e).unwrap();
+                                let e_ceil = self.ceil(e).unwrap();
+                                let q = self
+                                    .if_nonzero_else(e_neg, e_ceil, e_floor)
                                     .unwrap();
-                                let m = self.sub(m, offset).unwrap();
 
-                                // Torn from the div_euclid implementation
-                                let outer = self.less_than(m, zero).unwrap();
+                                // `lhs % rhs` takes the sign of `lhs`, so it
+                                // is negative iff `lhs` is negative and the
+                                // remainder `n` (this node) is nonzero
+                                let lhs_neg =
+                                    self.less_than(v_lhs, zero).unwrap();
+                                let outer = self.and(lhs_neg, n).unwrap();
                                 let inner =
                                     self.less_than(zero, v_rhs).unwrap();
                                 let qa = self.sub(q, 1.0).unwrap();
